@@ -217,12 +217,12 @@ func vhC10Load(n *models.Namespace) (rt *Router, err error, panicked bool) {
 	return
 }
 
-//verif:harness prop=C10 bounds="one mycat_mod / mycat_long / mycat_string / mycat_murmur / mycat_padding_mod / global rule; locations [1,1] or [2,2]; databases from eight forms (ranges, duplicates, empty); partition count/length from eight pairs (negative and zero entries included); hash slice, seed, virtual bucket times and padding parameters from small sets; sharding key any int64 (mod, long)"
+//verif:harness prop=C10 bounds="one mycat_mod / mycat_long / mycat_string / mycat_murmur / mycat_padding_mod / global rule; locations [1,1] or [2,2]; databases from ten forms (ranges, duplicates, empty); partition count/length from eight pairs (negative and zero entries included); hash slice, seed, virtual bucket times and padding parameters from small sets; sharding key any int64 (mod, long)"
 func Harness_C10_Mycat() {
 	n := vhC10Namespace()
 	tp := []string{models.ShardMycatMod, models.ShardMycatLong, models.ShardMycatString, models.ShardMycatMURMUR, models.ShardMycatPaddingMod, models.ShardGlobal}[vs.Choice("type", 6)]
 	locs := [][]int{{1, 1}, {2, 2}}[vs.Choice("locations", 2)]
-	dbs := [][]string{{"db_[0-1]"}, {"db_[0-3]"}, {"a", "a"}, {"a", "b"}, {"db_[1-1]"}, {}, {"a", "b", "a", "c"}, {"a", "a", "b", "c"}}[vs.Choice("databases", 8)]
+	dbs := [][]string{{"db_[0-1]"}, {"db_[0-3]"}, {"a", "a"}, {"a", "b"}, {"db_[1-1]"}, {}, {"a", "b", "a", "c"}, {"a", "a", "b", "c"}, {"a", "b", "a", "a"}, {"a", "b", "b", "b"}}[vs.Choice("databases", 10)]
 	r := &models.Shard{DB: "db", Table: "t", Type: tp, Key: "id", Locations: locs, Slices: []string{"s0", "s1"}, Databases: dbs}
 	vs.TagB("duplicateDatabaseOnOneSlice", len(dbs) == 4 && dbs[0] == dbs[1])
 	switch tp {
